@@ -32,6 +32,42 @@ func (r *oneByteReader) Read(p []byte) (int, error) {
 	return 1, nil
 }
 
+// hSer is a minimal legacy Serializable: a uint32 type code followed by one byte.
+type hSer struct {
+	T uint32
+	V byte
+}
+
+func (h *hSer) Deserialize(data []byte, _ serializer.DeSerializationMode, _ interface{}) (int, error) {
+	if len(data) < 5 {
+		return 0, fmt.Errorf("hSer: short input")
+	}
+	h.T = uint32(data[0]) | uint32(data[1])<<8 | uint32(data[2])<<16 | uint32(data[3])<<24
+	h.V = data[4]
+	return 5, nil
+}
+func (h *hSer) Serialize(serializer.DeSerializationMode, interface{}) ([]byte, error) {
+	return []byte{byte(h.T), byte(h.T >> 8), byte(h.T >> 16), byte(h.T >> 24), h.V}, nil
+}
+func (h *hSer) MarshalJSON() ([]byte, error) { return []byte("{}"), nil }
+func (h *hSer) UnmarshalJSON([]byte) error   { return nil }
+
+// hSerByte has a one-byte type code.
+type hSerByte struct{ T, V byte }
+
+func (h *hSerByte) Deserialize(data []byte, _ serializer.DeSerializationMode, _ interface{}) (int, error) {
+	if len(data) < 2 {
+		return 0, fmt.Errorf("hSerByte: short input")
+	}
+	h.T, h.V = data[0], data[1]
+	return 2, nil
+}
+func (h *hSerByte) Serialize(serializer.DeSerializationMode, interface{}) ([]byte, error) {
+	return []byte{h.T, h.V}, nil
+}
+func (h *hSerByte) MarshalJSON() ([]byte, error) { return []byte("{}"), nil }
+func (h *hSerByte) UnmarshalJSON([]byte) error   { return nil }
+
 func primitivesPart(c *cli.Ctx) *cli.PartResult {
 	rec := &recorder{viol: map[string]*cli.Violation{}}
 	maxLen := 5
@@ -55,6 +91,50 @@ func primitivesPart(c *cli.Ctx) *cli.PartResult {
 	add("Deserializer.ReadUint256", func(b []byte) int { var x *big.Int; return done(serializer.NewDeserializer(b).ReadUint256(&x, nop)) })
 	add("Deserializer.ReadTime", func(b []byte) int { var x time.Time; return done(serializer.NewDeserializer(b).ReadTime(&x, nop)) })
 	add("Deserializer.ReadBytes(3)", func(b []byte) int { var x []byte; return done(serializer.NewDeserializer(b).ReadBytes(&x, 3, nop)) })
+	guard32 := func(ty uint32) (serializer.Serializable, error) {
+		if ty <= 2 {
+			return &hSer{}, nil
+		}
+		return nil, fmt.Errorf("unknown type %d", ty)
+	}
+	guard8 := func(ty uint32) (serializer.Serializable, error) {
+		if ty <= 2 {
+			return &hSerByte{}, nil
+		}
+		return nil, fmt.Errorf("unknown type %d", ty)
+	}
+	for _, mode := range []serializer.DeSerializationMode{serializer.DeSeriModeNoValidation, serializer.DeSeriModePerformValidation} {
+		mode := mode
+		mn := fmt.Sprintf("mode%d", mode)
+		add("Deserializer.ReadPayload("+mn+")", func(b []byte) int {
+			var x serializer.Serializable
+			return done(serializer.NewDeserializer(b).ReadPayload(&x, mode, nil, guard32, nop))
+		})
+		add("Deserializer.ReadObject(uint32,"+mn+")", func(b []byte) int {
+			var x serializer.Serializable
+			return done(serializer.NewDeserializer(b).ReadObject(&x, mode, nil, serializer.TypeDenotationUint32, guard32, nop))
+		})
+		add("Deserializer.ReadObject(byte,"+mn+")", func(b []byte) int {
+			var x serializer.Serializable
+			return done(serializer.NewDeserializer(b).ReadObject(&x, mode, nil, serializer.TypeDenotationByte, guard8, nop))
+		})
+		for ln, lt := range lts {
+			ln, lt := ln, lt
+			add("Deserializer.ReadSliceOfObjects("+ln+",byte,"+mn+")", func(b []byte) int {
+				n := 0
+				rules := &serializer.ArrayRules{Guards: serializer.SerializableGuard{ReadGuard: guard8}}
+				return done(serializer.NewDeserializer(b).ReadSliceOfObjects(func(s serializer.Serializables) { n = len(s) }, mode, nil, lt, serializer.TypeDenotationByte, rules, nop)) + 0*n
+			})
+		}
+	}
+	add("Deserializer.ReadBytesInPlace(3)", func(b []byte) int {
+		var x [3]byte
+		return done(serializer.NewDeserializer(b).ReadBytesInPlace(x[:], nop))
+	})
+	add("Deserializer.Skip(2)+ReadByte", func(b []byte) int {
+		var x byte
+		return done(serializer.NewDeserializer(b).Skip(2, nop).ReadByte(&x, nop))
+	})
 	add("Deserializer.ReadPayloadLength", func(b []byte) int {
 		d := serializer.NewDeserializer(b)
 		_, _ = d.ReadPayloadLength()
